@@ -170,3 +170,117 @@ def evaluate(F, pm, maxlen=4):
                 return None, "the value handed to parse is not a vector: %r" % (got,)
             rows.append((vec, want, list(got[1]), list(got[1]) == want))
     return rows, None
+
+
+# ----------------------------------------------------------------------------------------------- parse_identifier: sequence arm
+
+class SeqModel(KeyModel):
+    """parse_identifier over a model YAML value; parse_mapping is answered from a table"""
+
+    def __init__(self, F, failing):
+        super().__init__(F, [])
+        self.failing = failing
+
+    def ev(self, n, env):
+        n0 = peel(n)
+        if n0.get("k") == "Adt" and str(n0.get("adt", "")).endswith("result::Result") and n0["fields"]:
+            return ("ok" if n0["variant"] == "Ok" else "err", self.ev(n0["fields"][0]["e"], env))
+        if n0.get("k") == "Array":
+            return ("list", [self.ev(x, env) for x in n0["fields"]])
+        return super().ev(n, env)
+
+    def call(self, n, env):
+        fn = n.get("fn") or ""
+        args = n["args"]
+        last = fn.split("::")[-1]
+        A_ = lambda i: self.ev(args[i], env)
+        if fn.startswith("error::") or "::error::" in fn:
+            return ("error",)
+        if fn.endswith("parser::parse_mapping") and len(args) == 1:
+            m = A_(0)
+            if isinstance(m, tuple) and m and m[0] == "map":
+                return ("err", ("error",)) if m[1] in self.failing else ("ok", ("pm", m[1]))
+            raise Unrecognised("parse_mapping on %r" % (m,))
+        if last in ("into_vec", "box_assume_init_into_vec_unsafe", "to_vec") and len(args) == 1:
+            v = A_(0)
+            if isinstance(v, tuple) and v and v[0] in ("list", "vec"):
+                return ("vec", list(v[1]))
+        if last == "new" and "Box" in fn and len(args) == 1:
+            return A_(0)
+        if last == "write_box_via_move" and len(args) == 2:
+            return A_(1)  # `vec![a, b]`: the array literal on its way into a Vec
+        if last in ("iter", "into_iter") and len(args) == 1:
+            v = A_(0)
+            if isinstance(v, tuple) and v and v[0] == "seq":
+                return It(v[1])
+        if last in ("split_first", "split_last", "first", "last", "is_empty", "len", "get") and args:
+            v = A_(0)
+            if isinstance(v, tuple) and v and v[0] == "seq":
+                xs = v[1]
+                if last == "split_first":
+                    return ("some", (xs[0], ("seq", xs[1:]))) if xs else None
+                if last == "split_last":
+                    return ("some", (xs[-1], ("seq", xs[:-1]))) if xs else None
+                if last == "first":
+                    return ("some", xs[0]) if xs else None
+                if last == "last":
+                    return ("some", xs[-1]) if xs else None
+                if last == "is_empty":
+                    return not xs
+                if last == "len":
+                    return len(xs)
+                if last == "get" and len(args) == 2:
+                    i = A_(1)
+                    if isinstance(i, int):
+                        return ("some", xs[i]) if 0 <= i < len(xs) else None
+        if last == "skip" and len(args) == 2:
+            v, c = A_(0), A_(1)
+            if isinstance(v, It) and isinstance(c, int):
+                return It(v.items[c:])
+        return super().call(n, env)
+
+    def index(self, base, idx):
+        if isinstance(base, tuple) and base and base[0] == "seq":
+            xs = base[1]
+            if isinstance(idx, int) and 0 <= idx < len(xs):
+                return xs[idx]
+            if isinstance(idx, tuple) and idx and idx[0] == "ctor" and idx[1] == "RangeFrom" and isinstance(idx[3][0], int) and 0 <= idx[3][0] <= len(xs):
+                return ("seq", xs[idx[3][0]:])
+            raise Unrecognised("slice index (a panic in the model) %r[%r]" % (base, idx))
+        return super().index(base, idx)
+
+
+def evaluate_sequence(F, pi, maxlen=3):
+    """parse_identifier(Sequence(xs)) for all xs up to maxlen over {mapping, non-mapping}, with every subset of one failing mapping
+    -> (rows, unrecognised); expected: Ok(or-group of parse_mapping(x) in order) iff xs is non-empty, all mappings, none failing"""
+    ps = [strip_ref(p["pat"]) for p in pi.thir["params"] if p.get("pat")]
+    if len(ps) != 1 or ps[0].get("k") != "Bind":
+        return None, "parameters"
+    rows = []
+    for ln in range(0, maxlen + 1):
+        for shape in itertools.product((True, False), repeat=ln):
+            for failing in [set()] + [{i} for i in range(ln) if shape[i]]:
+                xs = [("ctor", "Value", "Mapping", [("map", i)]) if shape[i] else ("ctor", "Value", "String", ["x"]) for i in range(ln)]
+                doc = ("ctor", "Value", "Sequence", [("seq", xs)])
+                good = ln > 0 and all(shape) and not failing
+                want = ("ok", ("ctor", "Expression", "BooleanGroup", [("ctor", "BoolSym", "Or", []), [("pm", i) for i in range(ln)]])) if good else "err"
+                m = SeqModel(F, failing)
+                env = {ps[0]["id"]: doc}
+                try:
+                    try:
+                        got = m.ev(pi.body, env)
+                    except Ret as rr:
+                        got = rr.v
+                except Unrecognised as e:
+                    return None, str(e)[:200]
+                except (KeyError, IndexError, TypeError, AttributeError, ValueError) as e:
+                    return None, "evaluator error %r" % (e,)
+                if isinstance(got, tuple) and got and got[0] == "err":
+                    g = "err"
+                elif isinstance(got, tuple) and got and got[0] == "ok" and isinstance(got[1], tuple) and got[1][0] == "ctor" and got[1][2] == "BooleanGroup" \
+                        and isinstance(got[1][3][1], tuple) and got[1][3][1][0] in ("vec", "list"):
+                    g = ("ok", ("ctor", "Expression", "BooleanGroup", [got[1][3][0], list(got[1][3][1][1])]))
+                else:
+                    g = got
+                rows.append(((shape, tuple(sorted(failing))), want, g, g == want))
+    return rows, None
